@@ -100,7 +100,7 @@ def xs(draw, n, integer=False):
         x0 = draw(st.integers(0, 5000))
         steps = draw(st.lists(st.integers(1, 1000), min_size=n - 1, max_size=n - 1))
     else:
-        x0 = draw(st.floats(0, 100, allow_nan=False))
+        x0 = draw(st.floats(0, 100, allow_nan=False).map(lambda v: v if v >= 1e-6 else 0.0))
         steps = draw(st.lists(st.floats(0.01, 10, allow_nan=False), min_size=n - 1, max_size=n - 1))
     x = [float(x0)]
     for s in steps:
